@@ -1,6 +1,7 @@
 # setup: nothing is fetched; parse every TLA+ module with SANY so that a broken spec is caught early
 PY=/venv/bin/python
-setup:
+include mk/c06.mk
+setup: c06-setup
 	@mkdir -p .work evidence
 	@cd /verif && $(PY) tools/sany_all.py
 manifest:
